@@ -129,9 +129,9 @@ def app_check(ctx, prop, props_v, theorems, codes, pred, extra_assume, known_cla
         V.violation(ctx, "harness-build", {"kind": "harness-does-not-build", "detail": out[-3000:]}, nofail=True)
         V.write_evidence(ctx, "proof", {}, assume)
         return None
-    nh = histories or (6 if ctx.quick() else 360)
+    nh = histories or (12 if ctx.quick() else 360)
     nb = blocks or (40 if ctx.quick() else 70)
-    shards = 3 if ctx.quick() else 36
+    shards = 4 if ctx.quick() else 36
     evals = "bad=check_props [%s] %s" % (";".join(str(c) for c in codes), pred)
     if extra_evals:
         evals += "|" + extra_evals
